@@ -63,7 +63,7 @@ theorem sk_userCallback' (s : St) (tok : Nat) (st : Status) (t : Nat) (dg : Stri
 
 theorem good_userCb {go} (hgo : GoOk go) {d tok react st timeouts dg s}
     (hpre : Pre d s (.userCb tok react st timeouts dg)) :
-    Good d (.userCb tok react st timeouts dg) s (bodyUserCb go tok react st timeouts dg s) := by
+    GoodO d (.userCb tok react st timeouts dg) s (bodyUserCb go tok react st timeouts dg s) := by
   obtain ⟨hw, ⟨x, hd, hx⟩, hp, hq, hc⟩ := hpre
   have hsk := sk_userCallback' s tok st timeouts dg
   have hw1 : Wf (s.userCallback tok st timeouts dg) := by
@@ -74,9 +74,10 @@ theorem good_userCb {go} (hgo : GoOk go) {d tok react st timeouts dg s}
   unfold bodyUserCb
   simp only
   split
-  · exact ⟨hw1, hd1, hs1, trivial⟩
-  · have hg := hgo d (.reactions react) _ (show Wf _ ∧ DebtOk none d _ from ⟨hw1, hd1⟩)
-    exact ⟨hg.wf, hg.debt, hs1.trans hg.step, trivial⟩
+  · exact Or.inr ⟨hw1, hd1, hs1, trivial⟩
+  · rcases hgo.2 d (.reactions react) _ (show Wf _ ∧ DebtOk none d _ from ⟨hw1, hd1⟩) with hoof | hg
+    · exact Or.inl hoof
+    · exact Or.inr ⟨hg.wf, hg.debt, hs1.trans hg.step, trivial⟩
 
 /-! ### `callback` -/
 
@@ -125,16 +126,17 @@ theorem sk_modClient_set {s : St} {id : Nat} {c0 c' : Client} (hu : ∀ x ∈ s.
 
 theorem good_callback {go} (hgo : GoOk go) {d owner react st timeouts rec s}
     (hpre : Pre d s (.callback owner react st timeouts rec)) :
-    Good d (.callback owner react st timeouts rec) s (bodyCallback go owner react st timeouts rec s) := by
+    GoodO d (.callback owner react st timeouts rec) s (bodyCallback go owner react st timeouts rec s) := by
   obtain ⟨hw, hof, hdf⟩ := hpre
   unfold bodyCallback
   cases owner with
-  | probe => exact ⟨hw, hdf, StepS.refl _ _ _ _, trivial⟩
+  | probe => exact Or.inr ⟨hw, hdf, StepS.refl _ _ _ _, trivial⟩
   | user tok =>
     obtain ⟨h1, h2, h3⟩ := hof
-    have hg := hgo d (.userCb tok react st timeouts (digest rec)) s
-      ⟨hw, ⟨none, hdf, fun _ _ he => by cases he⟩, h1, h2, fun c hc he => absurd he (h3 c hc)⟩
-    exact ⟨hg.wf, hg.debt, hg.step, trivial⟩
+    rcases hgo.2 d (.userCb tok react st timeouts (digest rec)) s
+      ⟨hw, ⟨none, hdf, fun _ _ he => by cases he⟩, h1, h2, fun c hc he => absurd he (h3 c hc)⟩ with hoof | hg
+    · exact Or.inl hoof
+    · exact Or.inr ⟨hg.wf, hg.debt, hg.step, trivial⟩
   | client id =>
     obtain ⟨c0, hc0, hid0, hm0, hp0, hu0⟩ := client?_of_active hw hof
     simp only [hc0]
@@ -178,8 +180,9 @@ theorem good_callback {go} (hgo : GoOk go) {d owner react st timeouts rec s}
         show c'.outstanding = _
         have : (Sk.subs s.sk id) = s.sk.subs id := rfl
         omega
-    have hg := hgo d (.runActs id acts) _ hpre1
-    refine ⟨hg.wf, hg.debt, ?_, trivial⟩
+    rcases hgo.2 d (.runActs id acts) _ hpre1 with hoof | hg
+    · exact Or.inl hoof
+    refine Or.inr ⟨hg.wf, hg.debt, ?_, trivial⟩
     have hs1 : StepS none (some id) d s.sk (s.modClient id fun _ => c').sk := by rw [hsk]; exact step_setOut
     exact hs1.trans hg.step
 
@@ -208,7 +211,7 @@ theorem sk_endQueryPre (s : St) (srv : Option Nat) (key : Nat) (st : Status) (re
   | some id => simp only; rw [sk_modServer_same]; intro; rfl
 
 theorem good_endQuery {go} (hgo : GoOk go) {d srv key st rec s} (hpre : Pre d s (.endQuery srv key st rec)) :
-    Good d (.endQuery srv key st rec) s (bodyEndQuery go srv key st rec s) := by
+    GoodO d (.endQuery srv key st rec) s (bodyEndQuery go srv key st rec s) := by
   obtain ⟨hw, hk, hd⟩ := hpre
   obtain ⟨q, hq, hqs⟩ := query?_of_idx hw hk
   rw [bodyEndQuery_eq go srv key st rec s q hq]
@@ -216,9 +219,12 @@ theorem good_endQuery {go} (hgo : GoOk go) {d srv key st rec s} (hpre : Pre d s 
   generalize endQueryPre s srv key st rec q = s3 at hsk3
   have hw3 : Wf s3 := by unfold Wf; rw [hsk3]; exact wf_detach hw (Or.inr rfl) hqs
   obtain ⟨hof, hdf⟩ := owner_detach hw hqs hk hd
-  have hg := hgo d (.callback q.owner q.react st q.timeouts rec) s3 ⟨hw3, by rw [hsk3]; exact hof, by rw [hsk3]; exact hdf⟩
+  have hg := hgo.2 d (.callback q.owner q.react st q.timeouts rec) s3 ⟨hw3, by rw [hsk3]; exact hof, by rw [hsk3]; exact hdf⟩
   generalize go (.callback q.owner q.react st q.timeouts rec) s3 = r at hg
   obtain ⟨s4, ret⟩ := r
+  rcases hg with hoof | hg
+  · exact Or.inl (by simpa using hoof)
+  right
   have hnk : key ∉ s4.sk.idx := by
     intro hin
     rcases hg.step.idxNew key hin with h | h
@@ -270,12 +276,12 @@ theorem cancelHead_idx {s : St} {fromAll : Bool} {key : Nat} (hw : Wf s) (h : ca
       exact (hw.i.lcOk l (List.mem_of_mem_head? hl)).2 key (List.mem_of_mem_head? h)
 
 theorem good_cancelLoop {go} (hgo : GoOk go) {d st fromAll s} (hpre : Pre d s (.cancelLoop st fromAll)) :
-    Good d (.cancelLoop st fromAll) s (bodyCancelLoop go st fromAll s) := by
+    GoodO d (.cancelLoop st fromAll) s (bodyCancelLoop go st fromAll s) := by
   obtain ⟨hw, hd⟩ := hpre
   cases hh : cancelHead s fromAll with
   | none =>
     rw [bodyCancelLoop_none go st fromAll s hh]
-    exact ⟨hw, hd, StepS.refl _ _ _ _, trivial⟩
+    exact Or.inr ⟨hw, hd, StepS.refl _ _ _ _, trivial⟩
   | some key =>
     have hk := cancelHead_idx hw hh
     obtain ⟨q, hq, hqs⟩ := query?_of_idx hw hk
@@ -284,12 +290,15 @@ theorem good_cancelLoop {go} (hgo : GoOk go) {d st fromAll s} (hpre : Pre d s (.
     generalize s.freeQuery key = s1 at hsk1
     have hw1 : Wf s1 := by unfold Wf; rw [hsk1]; exact wf_freeQuery hw
     obtain ⟨hof, hdf⟩ := owner_freeQuery hw hqs hk hd
-    have hg := hgo d (.callback q.owner q.react st 0 none) s1
+    have hg := hgo.2 d (.callback q.owner q.react st 0 none) s1
       ⟨hw1, by rw [hsk1]; exact hof, by rw [hsk1]; exact hdf⟩
     generalize go (.callback q.owner q.react st 0 none) s1 = r at hg
     obtain ⟨s2, ret⟩ := r
-    have hg2 := hgo d (.cancelLoop st fromAll) s2 ⟨hg.wf, hg.debt⟩
-    refine ⟨hg2.wf, hg2.debt, ?_, trivial⟩
+    rcases hg with hoof | hg
+    · exact Or.inl (hgo.1 _ _ hoof)
+    rcases hgo.2 d (.cancelLoop st fromAll) s2 ⟨hg.wf, hg.debt⟩ with hoof2 | hg2
+    · exact Or.inl hoof2
+    refine Or.inr ⟨hg2.wf, hg2.debt, ?_, trivial⟩
     have hs := hg.step
     rw [exId_callback, hsk1] at hs
     have h02 : StepS none (ownerId q.sk.owner) d s.sk s2.sk := (step_freeQuery hw).trans hs
